@@ -70,6 +70,8 @@ class CallMixin(object):
     def ev_old(self, node, st):
         if st.old is None:
             raise OutsideSubset('old() outside a post-state')
+        if isinstance(node, ast.Name) and node.id in st.old.env:
+            return st.old.env[node.id]           # old(x) of a variable: its value at entry
         s2 = St()
         s2.env = st.env
         s2.pc = st.pc
@@ -182,7 +184,7 @@ class CallMixin(object):
             for hk in heap_keys:
                 for suf, zs in self.field_sort(hk).comps():
                     hps.append((hk, suf, z3.ArraySort(Ref, zs)))
-            f = z3.RecFunction('spec_' + name, *(zps + [h[2] for h in hps] + [zsort(rsort)]))
+            f = z3.RecFunction(fresh_name('spec_' + name), *(zps + [h[2] for h in hps] + [zsort(rsort)]))
             self.defined_recs[key] = (f, hps, None)
             formals = [z3.Const('%s_p%d' % (name, i), zs) for i, zs in enumerate(zps)]
             hformals = [z3.Const('%s_h%d' % (name, i), h[2]) for i, h in enumerate(hps)]
@@ -201,8 +203,7 @@ class CallMixin(object):
                 res = coerce(self.ev(body[-1].value, s2), rsort)
             finally:
                 self.spec_mode = saved_mode
-            if s2.pc:
-                raise OutsideSubset('recursive spec function %s has side conditions' % name)
+            # s2.pc only holds type-invariant facts about the formals (allocatedness of references read from the heap): not needed
             z3.RecAddDefinition(f, formals + hformals, res.t)
         f, hps, _ = self.defined_recs[key]
         hargs = [self.heap_arrays(st, hk)[suf] for hk, suf, _ in hps]
@@ -254,9 +255,15 @@ class CallMixin(object):
     def bind_args(self, ct, args, kwargs, st):
         env = {}
         names = ct.param_names()
+        params = list(ct.params)
+        if params and params[-1][0].startswith('*'):
+            star = params.pop()
+            env[star[0][1:]] = PyTuple(args[len(params):])
+            args = args[:len(params)]
+            names = names[:-1]
         if len(args) > len(names):
             raise OutsideSubset('too many arguments for %s' % ct.qual)
-        for i, p in enumerate(ct.params):
+        for i, p in enumerate(params):
             name, sort = p[0], p[1]
             if i < len(args):
                 v = args[i]
@@ -641,6 +648,9 @@ class CallMixin(object):
                 cur = self.heap_get(st, key, obj.t)
                 conj.append(py_eq(cur, self.ev_Constant(valnode, st)))
         return mk_bool(z3.And(conj) if conj else z3.BoolVal(True))
+
+    def bi_int_str(self, args, kwargs, st, node):
+        return SV(STR, int_to_str(coerce(args[0], INT).t))
 
     def bi_is_none(self, args, kwargs, st, node):
         return mk_bool(py_eq(args[0], NONE_V))
